@@ -92,3 +92,21 @@ class TheoryPy:
             b.append(e)
         val = [x for r in rows for x in r]
         return _Poly(_Mat(val, len(rows), len(cols)), b, [_Var(i, by[i].bounds) for i in cols])
+
+
+def py_optimized_bit_allocation_64(values):
+    """ASSUMED contract A-rs2 of the compiled bit allocation, as an executable model (validated at run time against the
+    extension on random inputs by rt.arrays:a_rs2_bit_allocation): reading the non-zero values left to right, an entry
+    equal to its predecessor gets the predecessor's weight, any other entry gets 1 + the sum of all weights before it
+    (so a new priority level outweighs everything below it together).  64-bit overflow is not modelled (S1)."""
+    vals = list(values.tolist()) if hasattr(values, "tolist") else list(values)
+    out = []
+    total = 0
+    for k, v in enumerate(vals):
+        if k == 0:
+            w = 1
+        else:
+            w = site(v == vals[k - 1], out[-1], total + 1)
+        out.append(w)
+        total = total + w
+    return out
